@@ -216,8 +216,8 @@ theorem quote_roundtrip (q : Char) (hq : IsQ q) (s : Str) (triple : Bool) :
   refine ⟨isQuoted_quote1 q hq s triple, ?_⟩
   simp [unquoteStr, isQuoted_quote1 q hq s triple, pyEval_quote1 q hq s]
 
-example : quote1 '"' "a\"b\\c\nd%'".toList = "\"a\\\"b\\\\c\\nd%'\"".toList := by decide
-example : unquoteStr true (quote1 '\'' "it's 100% [x]; #=\t\r".toList) = .ok "it's 100% [x]; #=\t\r".toList := by decide
+example : quote1 '"' "a\"b\\c\nd%'".toList = "\"a\\\"b\\\\c\\nd%'\"".toList := by decide +kernel
+example : unquoteStr true (quote1 '\'' "it's 100% [x]; #=\t\r".toList) = .ok "it's 100% [x]; #=\t\r".toList := by decide +kernel
 
 /-! ## Triple-quoted form -/
 
@@ -262,7 +262,7 @@ theorem hasTripleQ_flatMap (q : Char) (hq : IsQ q) (s t : Str) (ht : ∀ x ∈ t
         | nil => simp
         | cons x t => simpa using ht x (by simp))
     simp only [List.flatMap_cons, List.append_assoc]
-    rcases escChar_spec q c hq with ⟨h, -, h2, -, -⟩ | ⟨h, rfl⟩ | ⟨h, rfl⟩ | ⟨h, rfl⟩ | ⟨h, rfl⟩
+    rcases escChar_spec q c hq with ⟨h, -, h2, -, -⟩ | ⟨h, rfl⟩ | ⟨h, -⟩ | ⟨h, rfl⟩ | ⟨h, rfl⟩
     · rw [h]; simp only [List.cons_append, List.nil_append]
       rw [hasTripleQ_cons_ne q c _ h2]; exact ih
     · rw [h]; simp only [List.cons_append, List.nil_append]
@@ -281,7 +281,7 @@ theorem hasTripleQ_flatMap (q : Char) (hq : IsQ q) (s t : Str) (ht : ∀ x ∈ t
 
 theorem tripleInner_flatMap (q : Char) (hq : IsQ q) (s : Str) (hs : s ≠ []) :
     tripleInner q (s.flatMap (escChar q)) = true := by
-  obtain ⟨s', c, rfl⟩ : ∃ s' c, s = s' ++ [c] := ⟨s.dropLast, s.getLast hs, (List.dropLast_append_getLast hs).symm⟩
+  obtain ⟨s', c, rfl⟩ : ∃ s' c, s = s' ++ [c] := ⟨s.dropLast, s.getLast hs, (List.dropLast_concat_getLast hs).symm⟩
   have hbs : ('\\' : Char) ≠ q := by rcases hq with rfl | rfl <;> decide
   have h0 := hasTripleQ_flatMap q hq s' [] (by simp)
   simp only [List.append_nil] at h0
@@ -353,7 +353,8 @@ theorem pyEval_quote3 (q : Char) (hq : IsQ q) (s : Str) : pyEval (quote3 q s) = 
 Full-strength statement (false of the current code):
   ∀ q s, isQuoted true (quote3 q s) = true ∧ unquoteStr true (quote3 q s) = .ok s
 It fails exactly at `s = []`: `_TRIPLE_QUOTED_STR_REGEX` demands one character (or escape pair) before the
-closing delimiter, so `""""""` / `` are not recognised (`quote3_empty_counterexample`).
+closing delimiter, so the empty string written with six quote characters is not recognised
+(`quote3_empty_counterexample`).
 -/
 
 /-- **Config.quote_roundtrip**, triple forms: every non-empty string, both quote characters. -/
@@ -362,64 +363,669 @@ theorem quote3_roundtrip_partial (q : Char) (hq : IsQ q) (s : Str) (hs : s ≠ [
   refine ⟨isQuoted_quote3 q hq s hs, ?_⟩
   simp [unquoteStr, isQuoted_quote3 q hq s hs, pyEval_quote3 q hq s]
 
-/-- the empty string written `""""""` is not recognised as quoted and is returned with its six quotes -/
+/-- the empty string written with six quote characters is not recognised as quoted and is returned with
+its six quotes -/
 theorem quote3_empty_counterexample :
-    isQuoted true (quote3 '"' []) = false ∧ unquoteStr true (quote3 '"' []) = .ok """""""".toList ∧
-    isQuoted true (quote3 ''' []) = false := by decide
+    isQuoted true (quote3 '"' []) = false ∧
+    unquoteStr true (quote3 '"' []) = .ok ['"', '"', '"', '"', '"', '"'] ∧
+    isQuoted true (quote3 '\'' []) = false := by decide +kernel
 
 /-- Python itself evaluates it to the empty string: the loss is in the recogniser only -/
-theorem quote3_empty_python : pyEval (quote3 '"' []) = .ok [] ∧ pyEval (quote3 ''' []) = .ok [] := by decide
+theorem quote3_empty_python : pyEval (quote3 '"' []) = .ok [] ∧ pyEval (quote3 '\'' []) = .ok [] := by
+  decide +kernel
 
 /-- without `triple`, a triple-quoted text is never evaluated -/
-example : isQuoted false (quote3 '"' "ab".toList) = false := by decide
-example : unquoteStr true (quote3 '"' "a
-b """ c\".toList) = .ok "a
-b """ c\".toList := by decide
+example : isQuoted false (quote3 '"' "ab".toList) = false := by decide +kernel
+example : unquoteStr true (quote3 '"' "a\nb \"\"\" c\\".toList) = .ok "a\nb \"\"\" c\\".toList := by
+  decide +kernel
 
 /-- **Config.unquoted_passthrough**: a text that is not recognised as quoted is returned unchanged -/
 theorem unquoted_passthrough (triple : Bool) (text : Str) (h : isQuoted triple text = false) :
     unquoteStr triple text = .ok text := by
   simp [unquoteStr, h]
 
+theorem matchSingle_head (q c : Char) (rest : Str) (h : c ≠ q) : matchSingle q (c :: rest) = false := by
+  simp [matchSingle, h]
+
+theorem dropFinalNl_head (c : Char) (rest : Str) :
+    dropFinalNl (c :: rest) = [] ∨ ∃ r, dropFinalNl (c :: rest) = c :: r := by
+  unfold dropFinalNl
+  split
+  · next r heq =>
+    have h3 : c :: rest = r.reverse ++ ['\n'] := by
+      have := congrArg List.reverse heq; simpa using this
+    cases hr : r.reverse with
+    | nil => left; rfl
+    | cons x xs =>
+      right
+      rw [hr] at h3
+      simp only [List.cons_append, List.cons.injEq] at h3
+      exact ⟨xs, by rw [h3.1]⟩
+  · exact Or.inr ⟨rest, rfl⟩
+
+theorem matchTriple_head (q c : Char) (rest : Str) (h : c ≠ q) : matchTriple q (c :: rest) = false := by
+  unfold matchTriple
+  rcases dropFinalNl_head c rest with h0 | ⟨r, hr⟩
+  · rw [h0]; rfl
+  · rw [hr]
+    match r with
+    | [] => rfl
+    | [_] => rfl
+    | _ :: _ :: _ => simp [stripTriple, h]
+
 /-- a text that does not start with a quote character is never "quoted" -/
 theorem not_quoted_of_head (triple : Bool) (text : Str) (h : ∀ c, text.head? = some c → isQuoteChar c = false) :
     isQuoted triple text = false := by
   cases text with
-  | nil => cases triple <;> decide
+  | nil => cases triple <;> decide +kernel
   | cons c rest =>
     have hc := h c rfl
     have h1 : c ≠ '"' := fun e => by simp [e, isQuoteChar] at hc
-    have h2 : c ≠ ''' := fun e => by simp [e, isQuoteChar] at hc
-    have hs : ∀ q, c ≠ q → stripTriple q (dropFinalNl (c :: rest)) = none := by
-      intro q hcq
-      have : ∃ r, dropFinalNl (c :: rest) = c :: r := by
-        unfold dropFinalNl
-        split
-        · next r heq =>
-          cases hr : r.reverse with
-          | nil =>
-            have : r = [] := by simpa using hr
-            subst this; simp at heq
-            obtain ⟨rfl, rfl⟩ := heq
-            -- text = ["
-"]: dropping it leaves nothing; handled below
-            exact absurd rfl (by simp [isQuoteChar] at hc)
-          | cons x xs =>
-            have h3 : (c :: rest) = (r.reverse ++ ['
-']) := by
-              have := congrArg List.reverse heq; simpa using this
-            rw [hr] at h3; simp at h3
-            exact ⟨xs, by rw [h3.1]⟩
-        · exact ⟨rest, rfl⟩
-      obtain ⟨r, hr⟩ := this
-      rw [hr]
-      match r with
-      | [] => simp [stripTriple]
-      | [_] => simp [stripTriple]
-      | _ :: _ :: _ => simp [stripTriple, hcq]
-    simp [isQuoted, matchSingle, matchTriple, h1, h2, hs '"' h1, hs ''' h2]
+    have h2 : c ≠ '\'' := fun e => by simp [e, isQuoteChar] at hc
+    simp [isQuoted, matchSingle_head _ c rest h1, matchSingle_head _ c rest h2,
+      matchTriple_head _ c rest h1, matchTriple_head _ c rest h2]
 
-example : unquoteStr true "plain text".toList = .ok "plain text".toList := by decide
-example : unquoteStr true ""a\"".toList = .ok ""a\"".toList := by decide   -- closing quote is escaped: not quoted
+example : unquoteStr true "plain text".toList = .ok "plain text".toList := by decide +kernel
+-- the closing quote is escaped: not a quoted string, returned as is
+example : unquoteStr true ['"', 'a', '\\', '"'] = .ok ['"', 'a', '\\', '"'] := by decide +kernel
+-- recognised by the regex, refused by Python (raw newline in a one-line literal): the documented ValueError
+example : isQuoted true ['"', 'a', '\n', 'b', '"'] = true ∧ unquoteStr true ['"', 'a', '\n', 'b', '"'] = .valueError := by
+  decide +kernel
+
+/-- a raw NUL between quotes: recognised as quoted, but `literal_eval` refuses the text -/
+theorem raw_nul_counterexample :
+    isQuoted true ['\'', 'a', Char.ofNat 0, 'b', '\''] = true ∧
+    unquoteStr true ['\'', 'a', Char.ofNat 0, 'b', '\''] = .valueError ∧
+    unquoteStr true (quote1 '\'' ['a', Char.ofNat 0, 'b']) = .ok ['a', Char.ofNat 0, 'b'] := by decide +kernel
+
+/-! ## INI path -/
+
+theorem not_mem_esc1_percent (q c : Char) (hq : IsQ q) (hc : c ≠ '%') : '%' ∉ esc1 q c := by
+  rcases esc1_spec q c hq with ⟨h, -⟩ | ⟨h, rfl⟩ | ⟨h, rfl⟩ | ⟨h, rfl⟩ | ⟨h, rfl⟩ | ⟨h, rfl⟩
+  · rw [h]; simp; exact fun e => hc e.symm
+  all_goals (rw [h]; rcases hq with rfl | rfl <;> decide)
+
+theorem not_mem_escChar_percent (q c : Char) (hq : IsQ q) (hc : c ≠ '%') : '%' ∉ escChar q c := by
+  rcases escChar_spec q c hq with ⟨h, -⟩ | ⟨h, rfl⟩ | ⟨h, rfl⟩ | ⟨h, rfl⟩ | ⟨h, rfl⟩
+  · rw [h]; simp; exact fun e => hc e.symm
+  all_goals (rw [h]; rcases hq with rfl | rfl <;> decide)
+
+theorem not_mem_quote1_percent (q : Char) (hq : IsQ q) (s : Str) (hs : '%' ∉ s) : '%' ∉ quote1 q s := by
+  have hq' : ('%' : Char) ≠ q := by rcases hq with rfl | rfl <;> decide
+  simp only [quote1, List.mem_cons, List.mem_append, List.mem_flatMap, List.mem_nil_iff, or_false, not_or,
+    not_exists, not_and]
+  exact ⟨hq', fun c hc => not_mem_esc1_percent q c hq (fun e => hs (e ▸ hc)), hq'⟩
+
+theorem not_mem_quote3_percent (q : Char) (hq : IsQ q) (s : Str) (hs : '%' ∉ s) : '%' ∉ quote3 q s := by
+  have hq' : ('%' : Char) ≠ q := by rcases hq with rfl | rfl <;> decide
+  simp only [quote3, List.mem_cons, List.mem_append, List.mem_flatMap, List.mem_nil_iff, or_false, not_or,
+    not_exists, not_and]
+  exact ⟨hq', hq', hq', fun c hc => not_mem_escChar_percent q c hq (fun e => hs (e ▸ hc)), hq', hq', hq'⟩
+
+/-- the contract of an interpolation step the round trip needs: text without `%` is left alone -/
+def PercentFreeId (interp : Str → InterpR) : Prop := ∀ t, '%' ∉ t → interp t = .ok t
+
+theorem basicInterp_percentFree : PercentFreeId basicInterp := by
+  intro t ht
+  induction t with
+  | nil => rfl
+  | cons c t ih =>
+    have hc : c ≠ '%' := fun e => ht (by simp [e])
+    have hl : '%' ∉ t := fun e => ht (by simp [e])
+    rw [basicInterp.eq_def]; simp [hc, ih hl, InterpR.cons]
+
+theorem noInterp_percentFree : PercentFreeId noInterp := fun _ _ => rfl
+
+/-- value pipeline on a text that `interp` leaves alone, is recognised as quoted and evaluates to `s` -/
+theorem iniValue_of_quoted (interp : Str → InterpR) (splitMl : Bool) (q : Char) (rest s : Str) (hq : IsQ q)
+    (hi : interp (q :: rest) = .ok (q :: rest)) (hquoted : isQuoted true (q :: rest) = true)
+    (hu : unquoteStr true (q :: rest) = .ok s) :
+    iniValue interp splitMl (q :: rest) = .str s := by
+  have hb : q ≠ '[' := by rcases hq with rfl | rfl <;> decide
+  simp [iniValue, hi, hb, hquoted, hu]
+
+/-
+Full-strength statement (false of the current code, `interp = basicInterp`):
+  ∀ q s, iniValue basicInterp splitMl (quote1 q s) = .str s
+`IniConfigParser.parse` builds `configparser.ConfigParser()` with the default `BasicInterpolation`; reading
+the section's items interpolates every value, so a `%` in a quoted value either raises
+(`ini_quote_roundtrip_counterexample`) or, doubled, is halved (`ini_percent_percent_counterexample`).
+-/
+
+/-- INI path, one-line quoted forms — needs "no `%` in the value" -/
+theorem ini_quote_roundtrip_partial (interp : Str → InterpR) (hi : PercentFreeId interp) (splitMl : Bool)
+    (q : Char) (hq : IsQ q) (s : Str) (hs : '%' ∉ s) :
+    iniValue interp splitMl (quote1 q s) = .str s :=
+  iniValue_of_quoted interp splitMl q _ s hq (hi _ (not_mem_quote1_percent q hq s hs))
+    (isQuoted_quote1 q hq s true) (quote_roundtrip q hq s true).2
+
+/-- INI path, triple forms — needs "no `%`" and a non-empty value -/
+theorem ini_quote3_roundtrip_partial (interp : Str → InterpR) (hi : PercentFreeId interp) (splitMl : Bool)
+    (q : Char) (hq : IsQ q) (s : Str) (hs : '%' ∉ s) (hne : s ≠ []) :
+    iniValue interp splitMl (quote3 q s) = .str s :=
+  iniValue_of_quoted interp splitMl q _ s hq (hi _ (not_mem_quote3_percent q hq s hs))
+    (isQuoted_quote3 q hq s hne) (quote3_roundtrip_partial q hq s hne).2
+
+/-- with the default `BasicInterpolation` (the code today) the hypothesis is met … -/
+theorem ini_quote_roundtrip_basic (splitMl : Bool) (q : Char) (hq : IsQ q) (s : Str) (hs : '%' ∉ s) :
+    iniValue basicInterp splitMl (quote1 q s) = .str s :=
+  ini_quote_roundtrip_partial basicInterp basicInterp_percentFree splitMl q hq s hs
+
+/-- … and it is needed: `project-name = "100%"` is refused (the whole file is: exit 2) -/
+theorem ini_quote_roundtrip_counterexample :
+    iniValue basicInterp true (quote1 '"' ['1', '0', '0', '%']) = .error .interpolation := by decide +kernel
+
+/-- a doubled `%` is read back halved -/
+theorem ini_percent_percent_counterexample :
+    iniValue basicInterp true (quote1 '\'' ['1', '0', '0', '%', '%']) = .str ['1', '0', '0', '%'] := by
+  decide +kernel
+
+/-- built with `interpolation=None` (proposed fix) the INI path reads every one-line quoted string back -/
+theorem ini_quote_roundtrip_nointerp (splitMl : Bool) (q : Char) (hq : IsQ q) (s : Str) :
+    iniValue noInterp splitMl (quote1 q s) = .str s :=
+  iniValue_of_quoted noInterp splitMl q _ s hq rfl (isQuoted_quote1 q hq s true) (quote_roundtrip q hq s true).2
+
+example : iniValue basicInterp true (quote1 '"' "a # b ; c = [d]\n".toList) = .str "a # b ; c = [d]\n".toList := by
+  decide +kernel
+-- unquoted values: passed through, split at newlines, `[…]` evaluated as a list of literals
+example : iniValue basicInterp true "plain".toList = .str "plain".toList := by decide +kernel
+example : iniValue basicInterp true "a\nb".toList = .list ["a".toList, "b".toList] := by decide +kernel
+example : iniValue basicInterp true "['x', \"y\"]".toList = .list ["x".toList, "y".toList] := by decide +kernel
+example : iniValue basicInterp true [] = .skip := by decide +kernel
+
+/-! ## Merge of config-file items into the argument vector (any option table)
+
+What argparse guarantees about a table (conflicting option strings are refused by `add_argument`) is stated
+as hypotheses; the harness checks them on the live parser. -/
+
+/-- no option string belongs to two options -/
+def FlagsDisjoint (T : List Opt) : Prop :=
+  ∀ a ∈ T, ∀ b ∈ T, ∀ f ∈ a.flags, f ∈ b.flags → a = b
+
+/-- no config key belongs to two options -/
+def KeysDisjoint (T : List Opt) : Prop :=
+  ∀ a ∈ T, ∀ b ∈ T, ∀ k ∈ possibleKeys a, k ∈ possibleKeys b → a = b
+
+/-- `--` itself is not an option string -/
+def NoSepFlag (T : List Opt) : Prop := ∀ o ∈ T, ['-', '-'] ∉ o.flags
+
+theorem lookupKey_some (T : List Opt) (k : Str) (o : Opt) (h : lookupKey T k = some o) :
+    o ∈ T ∧ k ∈ possibleKeys o := by
+  unfold lookupKey at h
+  have h1 := List.mem_of_find?_eq_some h
+  have h2 := List.find?_some h
+  exact ⟨by simpa using h1, by simpa using h2⟩
+
+theorem lookupKey_of_mem (T : List Opt) (hK : KeysDisjoint T) (o : Opt) (ho : o ∈ T) (k : Str)
+    (hk : k ∈ possibleKeys o) : lookupKey T k = some o := by
+  cases h : lookupKey T k with
+  | none =>
+    unfold lookupKey at h
+    rw [List.find?_eq_none] at h
+    have := h o (by simpa using ho)
+    simp [hk] at this
+  | some o' =>
+    obtain ⟨h1, h2⟩ := lookupKey_some T k o' h
+    rw [hK o' h1 o ho k h2 hk]
+
+theorem validate_known (T : List Opt) (d : List (Str × FileVal)) :
+    ∀ kv ∈ (validate T d).1, isKnown T kv.1 = true := by
+  intro kv h
+  simp only [validate, List.mem_filter] at h
+  exact h.2
+
+theorem convertItem_names (o : Opt) (v : FileVal) (l : List Arg) (h : convertItem o v = .ok l) :
+    ∀ a ∈ l, a.name ∈ o.flags := by
+  unfold convertItem at h
+  cases hl : o.flags.getLast? with
+  | none => simp [hl] at h
+  | some last =>
+    have hlast : last ∈ o.flags := List.mem_of_getLast? hl
+    have hhead : o.flags.head?.getD last ∈ o.flags := by
+      cases hf : o.flags with
+      | nil => simp [hf] at hlast
+      | cons f fs => simp
+    simp only [hl] at h
+    cases hk : o.kind <;> simp only [hk] at h
+    · -- store
+      cases v with
+      | list l' => simp at h
+      | str s =>
+        simp only [MergeR.ok.injEq] at h; subst h
+        intro a ha; simp at ha; subst ha; exact hlast
+    · -- append
+      cases v with
+      | list l' =>
+        simp only [MergeR.ok.injEq] at h; subst h
+        intro a ha; simp at ha; obtain ⟨e, -, rfl⟩ := ha; exact hlast
+      | str s =>
+        simp only [MergeR.ok.injEq] at h; subst h
+        intro a ha; simp at ha; subst ha; exact hlast
+    · -- flag
+      cases v with
+      | list l' => simp at h
+      | str s =>
+        simp only at h
+        split at h
+        · simp only [MergeR.ok.injEq] at h; subst h
+          intro a ha; simp at ha; subst ha; exact hlast
+        · split at h
+          · simp only [MergeR.ok.injEq] at h; subst h; intro a ha; simp at ha
+          · simp at h
+    · -- count
+      cases v with
+      | list l' => simp at h
+      | str s =>
+        simp only at h
+        split at h
+        · simp only [MergeR.ok.injEq] at h; subst h
+          intro a ha; simp at ha; subst ha; exact hlast
+        · split at h
+          · simp only [MergeR.ok.injEq] at h; subst h; intro a ha; simp at ha
+          · simp only [if_true] at h
+            split at h
+            · simp only [MergeR.ok.injEq] at h; subst h
+              intro a ha
+              rw [List.mem_replicate] at ha
+              rw [ha.2]; exact hhead
+            · simp at h
+
+/-- every argument a file contributes belongs to an option that is not on the command line -/
+theorem configArgs_names (T : List Opt) (args : List Arg) (items : List (Str × FileVal)) (extra : List Arg)
+    (hknown : ∀ kv ∈ items, isKnown T kv.1 = true) (h : configArgs T args items = .ok extra) :
+    ∀ a ∈ extra, ∃ o' ∈ T, alreadyOn args o'.flags = false ∧ a.name ∈ o'.flags := by
+  induction items generalizing extra with
+  | nil =>
+    simp only [configArgs, MergeR.ok.injEq] at h; subst h; intro a ha; simp at ha
+  | cons kv more ih =>
+    simp only [configArgs] at h
+    cases h1 : itemArgs T args kv with
+    | error e => simp [h1] at h
+    | ok l1 =>
+      cases h2 : configArgs T args more with
+      | error e => simp [h1, h2] at h
+      | ok l2 =>
+        simp only [h1, h2, MergeR.ok.injEq] at h; subst h
+        intro a ha
+        rw [List.mem_append] at ha
+        rcases ha with ha | ha
+        · have hk := hknown kv (by simp)
+          unfold isKnown at hk
+          cases hl : lookupKey T kv.1 with
+          | none => simp [hl] at hk
+          | some o' =>
+            obtain ⟨ho', -⟩ := lookupKey_some T kv.1 o' hl
+            simp only [itemArgs, hl] at h1
+            split at h1
+            · simp only [MergeR.ok.injEq] at h1; subst h1; simp at ha
+            · next hon =>
+              exact ⟨o', ho', by simpa using hon, convertItem_names o' kv.2 l1 h1 a ha⟩
+        · exact ih l2 (fun kv' hkv' => hknown kv' (by simp [hkv'])) h2 a ha
+
+theorem firstIdx_none (p : Arg → Bool) (l : List Arg) (h : firstIdx p l = none) : ∀ a ∈ l, p a = false := by
+  induction l with
+  | nil => intro a ha; simp at ha
+  | cons x l ih =>
+    simp only [firstIdx] at h
+    split at h
+    · simp at h
+    · next hp =>
+      have h' : firstIdx p l = none := by simpa using h
+      intro a ha
+      rcases List.mem_cons.mp ha with rfl | ha
+      · simpa using hp
+      · exact ih h' a ha
+
+theorem firstIdx_some_take (p : Arg → Bool) (l : List Arg) (i : Nat) (h : firstIdx p l = some i) :
+    ∀ a ∈ l.take i, p a = false := by
+  induction l generalizing i with
+  | nil => simp [firstIdx] at h
+  | cons x l ih =>
+    simp only [firstIdx] at h
+    split at h
+    · simp only [Option.some.injEq] at h; subst h; intro a ha; simp at ha
+    · next hp =>
+      cases hj : firstIdx p l with
+      | none => simp [hj] at h
+      | some j =>
+        simp only [hj, Option.map_some, Option.some.injEq] at h; subst h
+        intro a ha
+        simp only [List.take_succ_cons, List.mem_cons] at ha
+        rcases ha with rfl | ha
+        · simpa using hp
+        · exact ih j hj a ha
+
+theorem insertionIndex_noSep (l : List Arg) : ∀ a ∈ l.take (insertionIndex l), isSep a = false := by
+  unfold insertionIndex
+  cases h : firstIdx isSep l with
+  | some i => exact firstIdx_some_take isSep l i h
+  | none =>
+    intro a ha
+    exact firstIdx_none isSep l h a (List.mem_of_mem_take ha)
+
+theorem live_insert (l x : List Arg) (idx : Nat) (hx : ∀ a ∈ x, isSep a = false)
+    (hidx : ∀ a ∈ l.take idx, isSep a = false) :
+    live (l.take idx ++ x ++ l.drop idx) = l.take idx ++ x ++ live (l.drop idx) := by
+  unfold live
+  rw [List.append_assoc, List.takeWhile_append_of_pos (by intro a ha; simp [hidx a ha]),
+    List.takeWhile_append_of_pos (by intro a ha; simp [hx a ha]), List.append_assoc]
+
+theorem live_split (l : List Arg) (idx : Nat) (hidx : ∀ a ∈ l.take idx, isSep a = false) :
+    live l = l.take idx ++ live (l.drop idx) := by
+  have := live_insert l [] idx (by simp) hidx
+  simpa using this
+
+/-- inserting arguments of other options (none of them `--`) before the first `--` does not change what an
+option sees -/
+theorem occurrences_insert (o : Opt) (l x : List Arg) (idx : Nat)
+    (hx1 : ∀ a ∈ x, a.name ∉ o.flags) (hx2 : ∀ a ∈ x, isSep a = false)
+    (hidx : ∀ a ∈ l.take idx, isSep a = false) :
+    occurrences o (l.take idx ++ x ++ l.drop idx) = occurrences o l := by
+  unfold occurrences
+  rw [live_insert l x idx hx2 hidx, live_split l idx hidx]
+  simp only [List.filter_append]
+  have : x.filter (fun a => o.flags.contains a.name) = [] := by
+    rw [List.filter_eq_nil_iff]; intro a ha; simp [hx1 a ha]
+  rw [this]; simp
+
+theorem alreadyOn_iff (args : List Arg) (flags : List Str) :
+    alreadyOn args flags = true ↔ ∃ f ∈ flags, ∃ a ∈ args, a.name = f := by
+  simp [alreadyOn]
+
+/-- **Config.cli_overrides_file**: for any option table, any config file and any command line: an option
+given on the command line (by one of its option strings) gets exactly the value the command line alone
+gives it — whatever the file says about it or about any other option. -/
+theorem cli_overrides_file (T : List Opt) (hF : FlagsDisjoint T) (hS : NoSepFlag T) (o : Opt) (ho : o ∈ T)
+    (cli : List Arg) (data : List (Str × FileVal)) (args : List Arg)
+    (hon : alreadyOn cli o.flags = true) (hm : mergeFile T cli data = .ok args) :
+    effective o args = effective o cli := by
+  unfold mergeFile mergeOne at hm
+  cases hc : configArgs T cli (validate T data).1 with
+  | error e => simp [hc] at hm
+  | ok extra =>
+    simp only [hc, MergeR.ok.injEq] at hm; subst hm
+    have hnames := configArgs_names T cli _ extra (validate_known T data) hc
+    have hocc : occurrences o (cli.take (insertionIndex cli) ++ extra ++ cli.drop (insertionIndex cli)) =
+        occurrences o cli := by
+      apply occurrences_insert o cli extra _ _ _ (insertionIndex_noSep cli)
+      · intro a ha hmem
+        obtain ⟨o', ho', hoff, hin⟩ := hnames a ha
+        have : o' = o := hF o' ho' o ho a.name hin hmem
+        subst this; rw [hon] at hoff; exact absurd hoff (by simp)
+      · intro a ha
+        obtain ⟨o', ho', -, hin⟩ := hnames a ha
+        cases hs : isSep a with
+        | false => rfl
+        | true =>
+          simp only [isSep, Bool.and_eq_true, beq_iff_eq] at hs
+          exact absurd (hs.1 ▸ hin) (hS o' ho')
+    simp only [effective, hocc]
+
+/-- **Config.unknown_key_filtered**: `ValidatorParser` returns the known items in their order, warns once
+about each unknown key (in order) and never raises. -/
+theorem unknown_key_filtered (T : List Opt) (d : List (Str × FileVal)) :
+    (validate T d).1 = d.filter (fun kv => isKnown T kv.1) ∧
+    (validate T d).2 = (d.filter (fun kv => !isKnown T kv.1)).map (·.1) ∧
+    (∀ kv ∈ (validate T d).1, isKnown T kv.1 = true) ∧
+    (∀ k, k ∈ (validate T d).2 ↔ ∃ v, (k, v) ∈ d ∧ isKnown T k = false) := by
+  refine ⟨rfl, rfl, validate_known T d, ?_⟩
+  intro k
+  simp only [validate, List.mem_map, List.mem_filter, Bool.not_eq_true']
+  constructor
+  · rintro ⟨⟨k', v⟩, ⟨hmem, hk⟩, rfl⟩; exact ⟨v, hmem, hk⟩
+  · rintro ⟨v, hmem, hk⟩; exact ⟨(k, v), ⟨hmem, hk⟩, rfl⟩
+
+/-- an unknown key is warned about and changes nothing: same outcome (arguments or error) as the file
+without it, for every command line -/
+theorem unknown_key_not_applied (T : List Opt) (cli : List Arg) (d1 d2 : List (Str × FileVal)) (k : Str)
+    (v : FileVal) (hk : isKnown T k = false) :
+    mergeFile T cli (d1 ++ (k, v) :: d2) = mergeFile T cli (d1 ++ d2) ∧
+    (validate T (d1 ++ (k, v) :: d2)).2 = (validate T d1).2 ++ k :: (validate T d2).2 := by
+  constructor
+  · unfold mergeFile; simp [validate, List.filter_append, hk]
+  · simp [validate, List.filter_append, hk]
+
+theorem firstIdx_none_of (p : Arg → Bool) (l : List Arg) (h : ∀ a ∈ l, p a = false) : firstIdx p l = none := by
+  induction l with
+  | nil => rfl
+  | cons a l ih => simp [firstIdx, h a (by simp), ih (fun b hb => h b (by simp [hb]))]
+
+theorem startsWithDash_cons (c : Char) (r : Str) : startsWithDash (c :: r) = decide (c = '-') := by
+  unfold startsWithDash
+  split
+  · next h => simp only [List.cons.injEq] at h; simp [h.1]
+  · next h => by_cases hc : c = '-'
+              · subst hc; exact absurd rfl (h r)
+              · simp [hc]
+
+theorem insertionIndex_positional (pos : List Arg) (hpos : ∀ a ∈ pos, startsWithDash a.name = false) :
+    insertionIndex pos = pos.length := by
+  unfold insertionIndex
+  have h1 : firstIdx isSep pos = none := by
+    apply firstIdx_none_of
+    intro a ha
+    have h := hpos a ha
+    cases hs : isSep a with
+    | false => rfl
+    | true =>
+      simp only [isSep, Bool.and_eq_true, beq_iff_eq] at hs
+      rw [hs.1] at h; simp [startsWithDash] at h
+  have h2 : firstIdx (fun a => startsWithDash a.name) pos = none := firstIdx_none_of _ pos hpos
+  simp [h1, h2]
+
+theorem alreadyOn_positional (pos : List Arg) (hpos : ∀ a ∈ pos, startsWithDash a.name = false)
+    (flags : List Str) (hdash : ∀ f ∈ flags, startsWithDash f = true) : alreadyOn pos flags = false := by
+  cases h : alreadyOn pos flags with
+  | false => rfl
+  | true =>
+    obtain ⟨f, hf, a, ha, heq⟩ := (alreadyOn_iff pos flags).mp h
+    have h1 := hpos a ha
+    have h2 := hdash f hf
+    rw [heq] at h1; rw [h1] at h2; exact absurd h2 (by simp)
+
+/-- one known item, command line without options: the file's arguments follow the positionals -/
+theorem mergeFile_single (T : List Opt) (hK : KeysDisjoint T) (o : Opt) (ho : o ∈ T)
+    (hdash : ∀ f ∈ o.flags, startsWithDash f = true) (key : Str) (hkey : key ∈ possibleKeys o) (v : FileVal)
+    (pos : List Arg) (hpos : ∀ a ∈ pos, startsWithDash a.name = false) (extra : List Arg)
+    (hc : convertItem o v = .ok extra) :
+    mergeFile T pos [(key, v)] = .ok (pos ++ extra) := by
+  have hl := lookupKey_of_mem T hK o ho key hkey
+  have hknown : isKnown T key = true := by simp [isKnown, hl]
+  have hoff := alreadyOn_positional pos hpos o.flags hdash
+  simp [mergeFile, mergeOne, validate, hknown, configArgs, itemArgs, hl, hoff, hc,
+    insertionIndex_positional pos hpos]
+
+/-- **Config.file_eq_cli** (valued options): for every option of any table and every value, the file item
+`key = v` yields exactly the argument `--opt=v` the command line would carry — so the same converter
+(`type=`, `choices=`, `Options` converters) sees the same text. -/
+theorem file_eq_cli (T : List Opt) (hK : KeysDisjoint T) (o : Opt) (ho : o ∈ T)
+    (hkind : o.kind = .store ∨ o.kind = .append)
+    (hdash : ∀ f ∈ o.flags, startsWithDash f = true) (key : Str) (hkey : key ∈ possibleKeys o) (v : Str)
+    (pos : List Arg) (hpos : ∀ a ∈ pos, startsWithDash a.name = false)
+    (last : Str) (hlast : o.flags.getLast? = some last) :
+    mergeFile T pos [(key, .str v)] = .ok (pos ++ [⟨last, some v⟩]) := by
+  apply mergeFile_single T hK o ho hdash key hkey _ pos hpos
+  rcases hkind with hk | hk <;> simp [convertItem, hlast, hk]
+
+/-- the argument built from a file item is the one `--opt=v` parses to -/
+theorem parseArg_render (name v : Str) (h1 : startsWithDash name = true) (h2 : '=' ∉ name) :
+    parseArg (Arg.render ⟨name, some v⟩) = ⟨name, some v⟩ := by
+  have hall : ∀ x ∈ name, (fun c : Char => decide (c ≠ '=')) x = true := by
+    intro x hx; simp only [decide_eq_true_eq]; exact fun e => h2 (e ▸ hx)
+  have hd : startsWithDash (name ++ '=' :: v) = true := by
+    cases name with
+    | nil => simp [startsWithDash] at h1
+    | cons c r => rw [List.cons_append, startsWithDash_cons]; rw [startsWithDash_cons] at h1; exact h1
+  have htake : (name ++ '=' :: v).takeWhile (fun c : Char => decide (c ≠ '=')) = name := by
+    rw [List.takeWhile_append_of_pos hall]; simp
+  have hdrop : (name ++ '=' :: v).dropWhile (fun c : Char => decide (c ≠ '=')) = '=' :: v := by
+    rw [List.dropWhile_append_of_pos hall]; simp
+  unfold parseArg Arg.render
+  simp only [hd, List.contains_eq_mem, List.mem_append, List.mem_cons, true_or, or_true, decide_true,
+    Bool.and_self, if_true, htake, hdrop, List.drop_succ_cons, List.drop_zero]
+
+theorem not_true_of_false (s : Str) (h : falseWords.contains s = true) : trueWords.contains s = false := by
+  simp only [falseWords, List.contains_eq_mem, List.mem_cons, List.mem_nil_iff, or_false,
+    decide_eq_true_eq] at h
+  rcases h with rfl | rfl | rfl | rfl <;> decide +kernel
+
+/-- **Config.file_eq_cli**, flags: `key = true|yes|on|1` is the bare option, `false|no|off|0` is its absence -/
+theorem file_eq_cli_flag (T : List Opt) (hK : KeysDisjoint T) (o : Opt) (ho : o ∈ T) (hkind : o.kind = .flag)
+    (hdash : ∀ f ∈ o.flags, startsWithDash f = true) (key : Str) (hkey : key ∈ possibleKeys o) (v : Str)
+    (pos : List Arg) (hpos : ∀ a ∈ pos, startsWithDash a.name = false)
+    (last : Str) (hlast : o.flags.getLast? = some last) :
+    (trueWords.contains (lowerAscii v) = true → mergeFile T pos [(key, .str v)] = .ok (pos ++ [⟨last, none⟩])) ∧
+    (falseWords.contains (lowerAscii v) = true → mergeFile T pos [(key, .str v)] = .ok pos) := by
+  constructor
+  · intro hv
+    have hv' : lowerAscii v ∈ trueWords := by simpa using hv
+    apply mergeFile_single T hK o ho hdash key hkey _ pos hpos
+    simp [convertItem, hlast, hkind, hv']
+  · intro hv
+    have hv' : lowerAscii v ∈ falseWords := by simpa using hv
+    have hv'' : lowerAscii v ∉ trueWords := by simpa using not_true_of_false _ hv
+    have := mergeFile_single T hK o ho hdash key hkey (.str v) pos hpos []
+      (by simp [convertItem, hlast, hkind, hv', hv''])
+    simpa using this
+
+/-- **Config.file_eq_cli**, count options: `key = n` is the option repeated `n` times -/
+theorem file_eq_cli_count (T : List Opt) (hK : KeysDisjoint T) (o : Opt) (ho : o ∈ T) (hkind : o.kind = .count)
+    (hdash : ∀ f ∈ o.flags, startsWithDash f = true) (key : Str) (hkey : key ∈ possibleKeys o) (v : Str)
+    (pos : List Arg) (hpos : ∀ a ∈ pos, startsWithDash a.name = false)
+    (first last : Str) (hfirst : o.flags.head? = some first) (hlast : o.flags.getLast? = some last)
+    (h1 : trueWords.contains (lowerAscii v) = false) (h0 : falseWords.contains (lowerAscii v) = false)
+    (n : Int) (hn : pyInt v = some n) :
+    mergeFile T pos [(key, .str v)] = .ok (pos ++ List.replicate n.toNat ⟨first, none⟩) := by
+  have h1' : lowerAscii v ∉ trueWords := by simpa using h1
+  have h0' : lowerAscii v ∉ falseWords := by simpa using h0
+  apply mergeFile_single T hK o ho hdash key hkey _ pos hpos
+  simp [convertItem, hlast, hkind, h1', h0', hn, hfirst]
+
+theorem mapM_value_map (f : Str) (vs : List Str) :
+    (vs.map fun e => (⟨f, some e⟩ : Arg)).mapM (·.value) = some vs := by
+  induction vs with
+  | nil => rfl
+  | cons v vs ih => simp [List.mapM_cons, ih]
+
+/-- **Config.append_in_order** (file): a list given in a file for an `append` option that is not on the
+command line is what the option accumulates, in the order written. -/
+theorem append_in_order (T : List Opt) (hK : KeysDisjoint T) (o : Opt) (ho : o ∈ T)
+    (hkind : o.kind = .append) (key : Str) (hkey : key ∈ possibleKeys o) (vs : List Str)
+    (cli : List Arg) (hoff : alreadyOn cli o.flags = false) (args : List Arg)
+    (hm : mergeFile T cli [(key, .list vs)] = .ok args) :
+    effective o args = .many vs := by
+  have hl := lookupKey_of_mem T hK o ho key hkey
+  have hknown : isKnown T key = true := by simp [isKnown, hl]
+  obtain ⟨last, hlast⟩ : ∃ last, o.flags.getLast? = some last := by
+    cases hg : o.flags.getLast? with
+    | some last => exact ⟨last, rfl⟩
+    | none =>
+      rw [List.getLast?_eq_none_iff] at hg
+      simp [possibleKeys, hg] at hkey
+  have hlastmem : last ∈ o.flags := List.mem_of_getLast? hlast
+  simp only [mergeFile, mergeOne, validate, hknown, List.filter_cons, if_true, List.filter_nil, configArgs,
+    itemArgs, hl, hoff, Bool.false_eq_true, if_false, convertItem, hlast, hkind, List.append_nil,
+    MergeR.ok.injEq] at hm
+  subst hm
+  have hnone : ∀ a ∈ cli, a.name ∉ o.flags := by
+    intro a ha hmem
+    have : alreadyOn cli o.flags = true := (alreadyOn_iff cli o.flags).mpr ⟨a.name, hmem, a, ha, rfl⟩
+    rw [hoff] at this; exact absurd this (by simp)
+  have hsep : ∀ a ∈ vs.map (fun e => (⟨last, some e⟩ : Arg)), isSep a = false := by
+    intro a ha
+    simp only [List.mem_map] at ha
+    obtain ⟨e, -, rfl⟩ := ha
+    simp [isSep]
+  have hocc : occurrences o (cli.take (insertionIndex cli) ++ vs.map (fun e => (⟨last, some e⟩ : Arg)) ++
+      cli.drop (insertionIndex cli)) = vs.map (fun e => (⟨last, some e⟩ : Arg)) := by
+    unfold occurrences
+    rw [live_insert cli _ _ hsep (insertionIndex_noSep cli)]
+    simp only [List.filter_append]
+    have e1 : (cli.take (insertionIndex cli)).filter (fun a => o.flags.contains a.name) = [] := by
+      rw [List.filter_eq_nil_iff]; intro a ha; simp [hnone a (List.mem_of_mem_take ha)]
+    have e2 : (live (cli.drop (insertionIndex cli))).filter (fun a => o.flags.contains a.name) = [] := by
+      rw [List.filter_eq_nil_iff]; intro a ha
+      have : a ∈ cli := List.mem_of_mem_drop (List.takeWhile_subset _ ha)
+      simp [hnone a this]
+    have e3 : (vs.map (fun e => (⟨last, some e⟩ : Arg))).filter (fun a => o.flags.contains a.name) =
+        vs.map (fun e => (⟨last, some e⟩ : Arg)) := by
+      rw [List.filter_eq_self]; intro a ha
+      simp only [List.mem_map] at ha
+      obtain ⟨e, -, rfl⟩ := ha
+      simpa using hlastmem
+    rw [e1, e2, e3]; simp
+  simp only [effective, hkind, hocc, mapM_value_map]
+
+/-- **Config.append_in_order** (command line): repeated `--opt=v` accumulate in the order given -/
+theorem append_cli_in_order (o : Opt) (hkind : o.kind = .append) (f : Str) (hf : f ∈ o.flags)
+    (vs : List Str) :
+    effective o (vs.map fun v => ⟨f, some v⟩) = .many vs := by
+  have hlive : live (vs.map fun v => (⟨f, some v⟩ : Arg)) = vs.map fun v => ⟨f, some v⟩ := by
+    unfold live
+    have := List.takeWhile_append_of_pos (p := fun a => !isSep a)
+      (l₁ := vs.map fun v => (⟨f, some v⟩ : Arg)) (l₂ := []) (by
+        intro a ha
+        simp only [List.mem_map] at ha
+        obtain ⟨e, -, rfl⟩ := ha
+        simp [isSep])
+    simpa using this
+  have hocc : occurrences o (vs.map fun v => (⟨f, some v⟩ : Arg)) = vs.map fun v => ⟨f, some v⟩ := by
+    unfold occurrences
+    rw [hlive, List.filter_eq_self]
+    intro a ha
+    simp only [List.mem_map] at ha
+    obtain ⟨e, -, rfl⟩ := ha
+    simpa using hf
+  simp only [effective, hkind, hocc, mapM_value_map]
+
+/-! ### Non-vacuity: a small table exercised on concrete files and command lines -/
+
+def exTable : List Opt :=
+  [⟨["--project-name".toList], .store⟩, ⟨["--privacy".toList], .append⟩,
+   ⟨["--warnings-as-errors".toList, "-W".toList], .flag⟩, ⟨["--verbose".toList, "-v".toList], .count⟩]
+
+def exName : Opt := ⟨["--project-name".toList], .store⟩
+def exPriv : Opt := ⟨["--privacy".toList], .append⟩
+
+/-- file value used when the option is absent from the command line; command line wins when present -/
+example :
+    (match mergeFile exTable [] [("project-name".toList, .str "F".toList)] with
+     | .ok a => effective exName a | .error _ => .unmodelled) = .one (some "F".toList) ∧
+    (match mergeFile exTable [parseArg "--project-name=C".toList] [("project-name".toList, .str "F".toList)] with
+     | .ok a => effective exName a | .error _ => .unmodelled) = .one (some "C".toList) := by decide +kernel
+
+/-- an `append` option: the file's list in order; once the option is on the command line the file's list is
+dropped (no accumulation across the two sources) -/
+example :
+    (match mergeFile exTable [] [("privacy".toList, .list ["a".toList, "b".toList])] with
+     | .ok a => effective exPriv a | .error _ => .unmodelled) = .many ["a".toList, "b".toList] ∧
+    (match mergeFile exTable [parseArg "--privacy=c".toList, parseArg "--privacy=d".toList]
+        [("privacy".toList, .list ["a".toList, "b".toList])] with
+     | .ok a => effective exPriv a | .error _ => .unmodelled) = .many ["c".toList, "d".toList] := by
+  decide +kernel
+
+/-- an unknown key: one warning, nothing applied, no error -/
+example :
+    (validate exTable [("nosuch".toList, .str "1".toList), ("project-name".toList, .str "x".toList)]).2 =
+      ["nosuch".toList] ∧
+    (match mergeFile exTable [] [("nosuch".toList, .str "1".toList), ("project-name".toList, .str "x".toList)] with
+     | .ok a => a.map Arg.render | .error _ => []) = ["--project-name=x".toList] := by decide +kernel
+
+/-- file arguments go before the first option of the command line and after its positionals; of several
+files the last one read first wins (`reversed(config_streams)`) -/
+example :
+    (match mergeFiles exTable [parseArg "src".toList, parseArg "-W".toList]
+        [[("project-name".toList, .str "toml".toList), ("verbose".toList, .str "2".toList)],
+         [("project-name".toList, .str "ini".toList)]] with
+     | .ok a => a.map Arg.render | .error _ => []) =
+      ["src".toList, "--verbose".toList, "--verbose".toList, "--project-name=ini".toList, "-W".toList] := by
+  decide +kernel
+
+instance (T : List Opt) : Decidable (FlagsDisjoint T) := by unfold FlagsDisjoint; infer_instance
+instance (T : List Opt) : Decidable (KeysDisjoint T) := by unfold KeysDisjoint; infer_instance
+instance (T : List Opt) : Decidable (NoSepFlag T) := by unfold NoSepFlag; infer_instance
+
+/-- the hypotheses of the merge theorems are satisfiable -/
+example : FlagsDisjoint exTable ∧ KeysDisjoint exTable ∧ NoSepFlag exTable := by decide +kernel
 
 end Config
